@@ -118,10 +118,28 @@ var named = map[string]reflect.Type{
 	"Omit":        reflect.TypeOf(Omit{}),
 	"HoldsCustom": reflect.TypeOf(HoldsCustom{}),
 	"Picky":       reflect.TypeOf(Picky{}),
+	"PairA":       pairA,
+	"PairB":       pairB,
 }
 
+// pairA and pairB are two different struct types that print alike ("c15.pair"):
+// function-local types of the same name. Whatever is remembered about one of
+// them must not be applied to the other.
+var pairA = func() reflect.Type {
+	type pair struct {
+		A int `json:"a"`
+		B string
+	}
+	return reflect.TypeOf(pair{})
+}()
+
+var pairB = func() reflect.Type {
+	type pair struct{ X, Y, Z int }
+	return reflect.TypeOf(pair{})
+}()
+
 // NamedNames lists the hand-declared types.
-var NamedNames = []string{"ErrLike", "EmbTagged", "EmbUntagged", "CustomU", "TextU", "StrictV", "StrictP", "Omit", "HoldsCustom", "Picky"}
+var NamedNames = []string{"ErrLike", "EmbTagged", "EmbUntagged", "CustomU", "TextU", "StrictV", "StrictP", "Omit", "HoldsCustom", "Picky", "PairA", "PairB"}
 
 var (
 	ctxType = reflect.TypeOf((*context.Context)(nil)).Elem()
@@ -322,6 +340,10 @@ func GenJSON(t *rapid.T, d TypeDesc) string {
 			return rapid.SampledFrom([]string{`{"a":1,"C":true}`, `{}`, `{"a":5}`}).Draw(t, "nv")
 		case "Picky":
 			return rapid.SampledFrom([]string{`5`, `0`, `-3`, `"x"`, `7`}).Draw(t, "nv")
+		case "PairA":
+			return rapid.SampledFrom([]string{`{"a":1,"B":"x"}`, `{"B":"y"}`, `{}`}).Draw(t, "nv")
+		case "PairB":
+			return rapid.SampledFrom([]string{`{"X":1,"Y":2,"Z":3}`, `{"Z":1}`, `{}`}).Draw(t, "nv")
 		case "HoldsCustom":
 			return rapid.SampledFrom([]string{`{"c":"p,q","t":"tt","n":5}`, `{"n":null}`, `{}`}).Draw(t, "nv")
 		}
